@@ -9,6 +9,8 @@
 (*   proba   : every probability = sigmoid / soft-max of the linear        *)
 (*             predictor (training rows, zero row, rows with |x| = 1000),  *)
 (*             finite, inside [0,1] by order key, multinomial rows sum to 1*)
+(*             -- the validity clauses alone for the rows inp.qv (both     *)
+(*             signs, magnitudes 10^2 .. 10^4)                             *)
 (*   predict : binary  cls = pos iff prob >= threshold (order keys of the  *)
 (*             implementation's own floats; threshold = default 1/2, a     *)
 (*             dyadic fraction, or exactly the probability of a row);      *)
@@ -43,7 +45,8 @@ WMax == 50000000
 
 P == In.p
 N == Len(In.x)
-Rows == In.x \o In.q                         \* query rows: training rows followed by the extra rows
+Rows == In.x \o In.q \o In.qv                \* query rows: training rows, extra rows, validity-only extreme rows
+NVal == Len(In.x) + Len(In.q)                \* rows 1..NVal: the probability value is checked as well
 NameOf(q) == In.names[In.y[q] + 1]           \* label (as printed) of training row q
 UsedNames == {NameOf(q) : q \in 1..N}
 
@@ -84,12 +87,14 @@ TFit ==
 
 BinProbaOk ==
   /\ Ev.fin /\ Len(Ev.p4) = Len(Rows) /\ Len(Ev.pk) = Len(Rows)
-  /\ \A r \in 1..Len(Rows) : BinProbOk(Rows[r], FitEv.w6, FitEv.b6, Ev.p4[r]) /\ ProbKeyInRange(Ev.pk[r])
+  /\ \A r \in 1..Len(Rows) :
+       /\ ProbKeyInRange(Ev.pk[r]) /\ Ev.p4[r] \in 0..S
+       /\ r <= NVal => BinProbOk(Rows[r], FitEv.w6, FitEv.b6, Ev.p4[r])
 MultiProbaOk ==
   /\ Ev.fin /\ Len(Ev.p4) = Len(Rows) /\ Len(Ev.pk) = Len(Rows) /\ Len(Ev.rs6) = Len(Rows)
   /\ \A r \in 1..Len(Rows) :
        /\ Len(Ev.p4[r]) = MultiK /\ Len(Ev.pk[r]) = MultiK
-       /\ MultiProbOk(Rows[r], FitEv.w6, FitEv.b6, Ev.p4[r])
+       /\ r <= NVal => MultiProbOk(Rows[r], FitEv.w6, FitEv.b6, Ev.p4[r])
        /\ \A k \in 1..MultiK : ProbKeyInRange(Ev.pk[r][k])
        /\ Abs(Ev.rs6[r] - 1000000) <= 2                          \* each row sums to one
        /\ Abs(SumSeq(Ev.p4[r]) - S) <= MultiK \div 2 + 1
